@@ -15,10 +15,32 @@ NEG = [("MC_Schema_c07_catchall.cfg", "only TypeError/AttributeError caught in C
        ("MC_Schema_c07_setdatum.cfg", "write-back indexes via the key condition of a map part")]
 
 
+HOSTILE_KEYS = ["{}", "{x}", "{0}", "${LO}", "{", "}", "\\", "a.b", "a/b", "<k>", "'", '"', "[0]", "(", "#", "a\nb", " "]
+
+
 def hostile_document(rng):
     if rng.random() < 0.5:
-        return ruledrv.cast_document(rng, depth=3)
-    return gen.document(rng, depth=rng.choice([2, 3, 4]), strish=0.5)
+        doc = ruledrv.cast_document(rng, depth=3)
+    else:
+        doc = gen.document(rng, depth=rng.choice([2, 3, 4]), strish=0.5)
+    if rng.random() < 0.15:
+        # keys that look like templates / patterns / markup to whoever formats a message with them
+        sub = {k: rng.choice([1, "3", "x", None]) for k in rng.sample(HOSTILE_KEYS, rng.randint(2, 4))}
+        if isinstance(doc, dict):
+            doc = dict(doc)
+            k = rng.choice(["h", "a"])
+            doc[k] = sub
+        else:
+            doc = list(doc) + [sub]
+            k = len(doc) - 1
+        gen._note_document(doc)
+        HOSTILE_AT[0] = k
+    else:
+        HOSTILE_AT[0] = None
+    return doc
+
+
+HOSTILE_AT = [None]
 
 
 def run(rep, tier, seed):
@@ -33,10 +55,20 @@ def run(rep, tier, seed):
         rep.negative_cfgs.append(f"{cfg} ({what})")
     rng = random.Random(seed + 7)
     events, recipes = [], {}
+    ruledrv.VIA_SPEC[0] = random.Random(seed + 107)      # some rules are built from their spec (cast names -> cast table)
     for s in range(4500 if tier == "quick" else 60000):
         doc = hostile_document(rng)
         n = rng.choice([1, 1, 2, 2, 3])
         rrs = [ruledrv.rule_recipe(rng, doc, well_typed=True, cast_p=0.4, maxlen=3) for _ in range(n)]
+        if HOSTILE_AT[0] is not None and rng.random() < 0.6:
+            # an argument path that matches ALL the hostile keys at once, with .single() / .first() / .all(): the message
+            # of the refusal is built from those keys
+            from harness.props.ruledrv import PathArg
+            fan = {"rk": "map", "key": None, "index": None, "value": None, "cond": None, "label": None}
+            pa = PathArg([("prim", HOSTILE_AT[0]), fan], rng.choice(["none", "none", "length"]), rng.choice(["single", "single", "first", "all"]))
+            rrs.append({"rparts": gen.path_recipe(rng, doc, maxlen=2), "cast": None,
+                        "cond": ("leaf", {"datum": "value", "pre": "none", "fn": rng.choice(["equal_to", "in_", "not_equal_to"]),
+                                          "actuals": [pa], "akw": {}})})
         if rng.random() < 0.12:
             # arguments that are data paths into the same document (also .single() / .first() paths that match several
             # nodes or none): whatever they resolve to - or fail to - the node fails, validation does not raise
@@ -62,6 +94,7 @@ def run(rep, tier, seed):
         rec["sub"] = sub
         recipes[e["id"]] = rec
         rep.note_case(repr((rrs, doc, e["op"])), nontrivial=e["outcome"] != "ok" or e["nfail"] > 0 or e["ntested"] > 0 or e["tested"])
+    ruledrv.VIA_SPEC[0] = None
     ruledrv.judge(rep, events, recipes, ruledrv.default_key)
     for e in events[:: max(1, len(events) // 2)][:2]:
         rep.sample({"src": recipes[e["id"]], "outcome": e["outcome"]})
